@@ -10,6 +10,8 @@ contract is checked by running the real function on generated changesets.
 """
 from __future__ import annotations
 
+import os
+
 import copy
 import itertools
 import json
@@ -76,9 +78,78 @@ def run_update_finding_metadata(tier="quick", seed=0):
             "clause": "len, path, diff, change entries (line, description, number of findings) unchanged; finding.rule.(name,url) == the tool rule's when its id matches"}
 
 
+def run_report_identity(tier="quick", seed=0):
+    """BOUNDED: the report file of a real run, read back as UTF-8 JSON: one result per executed codemod in execution order also when two
+    codemods of different origins share their short name, and diffs carry the file's text (non-ASCII included) unescaped-equal."""
+    import contextlib, io, json, logging, shutil, tempfile
+    from codemodder.codemodder import run
+    base = tempfile.mkdtemp(prefix="pyvc_c15_")
+    evals, bad = 0, None
+    cwd = os.getcwd()
+
+    def cli(args):
+        rootlog = logging.getLogger()
+        for h in list(rootlog.handlers):
+            rootlog.removeHandler(h)
+        with contextlib.redirect_stdout(io.StringIO()), contextlib.redirect_stderr(io.StringIO()):
+            return run(args)
+    try:
+        os.chdir(base)
+        sonar = os.path.join(base, "sonar.json")
+        json.dump({"issues": []}, open(sonar, "w"))
+        orders = [["pixee:python/invert-boolean-check", "sonar:python/invert-boolean-check"],
+                  ["sonar:python/fix-assert-tuple", "pixee:python/use-generator", "pixee:python/fix-assert-tuple"]]
+        for k, wanted in enumerate(orders):
+            root = os.path.join(base, f"o{k}")
+            os.makedirs(root)
+            open(os.path.join(root, "code.py"), "w").write("x = 1\nif not x == 2:\n    assert (x, 'm')\n    print(any([y for y in (x,)]))\n")
+            out = os.path.join(base, f"o{k}.codetf")
+            rc = cli([root, "--output", out, "--codemod-include", ",".join(wanted), "--sonar-issues-json", sonar])
+            evals += 1
+            if rc != 0:
+                continue   # selection refused: the clause is not engaged
+            try:
+                got = [r["codemod"] for r in json.loads(open(out, "rb").read().decode("utf-8"))["results"]]
+            except Exception as e:  # noqa: BLE001
+                got = repr(e)
+            if got != wanted and bad is None:
+                bad = {"clause": "exactly one result per executed codemod, in execution order (origins that share a short name included)",
+                       "executed": wanted, "reported": got}
+        texts = ["caf\u00e9 \u65e5\u672c", "\u00fc\u00f1\u00ee \U0001f600", "plain"]
+        for k, t in enumerate(texts):
+            root = os.path.join(base, f"u{k}")
+            os.makedirs(root)
+            line = f"flag = any([c for c in '{t}'])"
+            open(os.path.join(root, "code.py"), "w", encoding="utf-8").write(line + "\n")
+            out = os.path.join(base, f"u{k}.codetf")
+            rc = cli([root, "--output", out, "--codemod-include", "pixee:python/use-generator"])
+            evals += 1
+            w = None
+            try:
+                rep = json.loads(open(out, "rb").read().decode("utf-8"))
+                diffs = [cs["diff"] for r in rep["results"] for cs in r["changeset"]]
+                if rc != 0:
+                    w = {"clause": "the run completes", "status": rc}
+                elif len(diffs) != 1 or ("-" + line) not in diffs[0].splitlines():
+                    w = {"clause": "the diff of the report carries the file's text", "line": line, "diffs": diffs}
+            except Exception as e:  # noqa: BLE001
+                w = {"clause": "the report is UTF-8 JSON", "observed": repr(e), "head": open(out, "rb").read()[:200].decode("latin-1") if os.path.exists(out) else None}
+            if w is not None and bad is None:
+                bad = dict(w, text=t)
+    finally:
+        os.chdir(cwd)
+        shutil.rmtree(base, ignore_errors=True)
+    return {"kind": "bounded", "id": "bounded:report file read back: one result per executed codemod across origins; diffs carry the text (real CLI)",
+            "status": "refuted" if bad else "discharged", "bound": f"{evals} runs (2 selections with same-name codemods of two origins, 3 non-ASCII/ASCII sources)",
+            "evaluations": evals, "witness": bad, "func": "codemodder.codemodder.run",
+            "reason": "" if not bad else f"clause '{bad.get('clause')}' fails",
+            "replay": {"reproduced": True, "detail": json.dumps(bad, default=str)[:2000]} if bad else None,
+            "clause": "[r.codemod for r in report.results] == executed ids; json(utf-8(report file)).results[*].changeset[*].diff contains the original line"}
+
+
 def extra_checks(tier="quick", seed=0):
     # the report of a real multi-codemod run: one result per executed codemod, in execution order, per-codemod content as in single runs
     from contracts.props.C09 import run_batch_vs_single
     rep = run_batch_vs_single(tier, seed)
     rep = dict(rep, id="bounded:report of a real multi-codemod run: one result per executed codemod, in execution order (real CLI)")
-    return [run_update_finding_metadata(tier, seed), rep]
+    return [run_update_finding_metadata(tier, seed), rep, run_report_identity(tier, seed)]
